@@ -60,6 +60,17 @@ class Ctl:
                 self.mu.wait()
             t["blocked"] = None
 
+    def enter(self, tag):
+        """first stop of a freshly started thread: wait to be chosen WITHOUT releasing anybody's turn (the thread
+        that started it is still running)"""
+        me = _th.get_ident()
+        with self.mu:
+            t = self.threads[me]
+            t["blocked"] = None
+            t["tag"] = tag
+            while self.cur != me:
+                self.mu.wait()
+
     def finish(self):
         me = _th.get_ident()
         with self.mu:
@@ -147,7 +158,7 @@ class CoopThread:
     def _run(self):
         CTL.register(self.name)
         sys.settrace(_tracer)
-        CTL.yield_point(("start",))
+        CTL.enter(("start",))
         try:
             self.target(*self.args)
         except BaseException as e:  # noqa
